@@ -242,6 +242,48 @@ func TestC06(t *testing.T) {
 		}
 		return nil
 	})
+	if ev.Thorough() && ev.Cfg.Shard == 0 {
+		// a list of more than 2^24 words, one of which ("4") is its own
+		// title-cased form: the password made of that word alone is produced
+		// whenever every word draw picks it, whatever the capitalisation coins
+		// say, so its probability is at least size^-Length and the reported
+		// entropy must not exceed Length*log2(size) (one shard only: the list
+		// takes a few GB while it is built)
+		ev.Check(t, "c06_huge_list", 1, func(t *rapid.T) c08Case {
+			return c08Case{W: gen.WLSpec{Length: rapid.IntRange(2, 6).Draw(t, "len"), Scheme: rapid.SampledFrom([]string{"random", "one"}).Draw(t, "scheme")},
+				Calls: 1<<24 + rapid.IntRange(1, 64).Draw(t, "beyond_2^24")}
+		}, func(c c08Case) error {
+			// the library itself leaves "4" alone when asked to capitalise it
+			one, err := spg.NewWordList([]string{"4"})
+			if err != nil {
+				return err
+			}
+			r1 := spg.NewWLRecipe(2, one)
+			r1.Capitalize = spg.CSAll
+			r1.SeparatorFunc = spg.SFNone
+			if pw, err := r1.Generate(); err != nil || pw.String() != "44" {
+				return &ev.Skip{Why: "the word \"4\" does not survive capitalisation unchanged"}
+			}
+			wl, err := hugeList(c.Calls)
+			if err != nil {
+				return err
+			}
+			for _, scheme := range []string{c.W.Scheme, "random", "one"} {
+				for _, L := range []int{c.W.Length, 1, 2, 7} {
+					r := spg.NewWLRecipe(L, wl)
+					r.Capitalize = spg.CapScheme(scheme)
+					r.SeparatorFunc = spg.SFNone
+					bound := float64(L) * math.Log2(float64(c.Calls+1))
+					if ent := r.Entropy(); math.IsNaN(float64(ent)) || float64(ent) > bound+4*oracle.Ulp32(bound)+1e-6 {
+						return fmt.Errorf("entropy overstated: list of 2^24+%d words, one of them \"4\": Length %d scheme %s: Entropy() = %v, but the password of %d times \"4\" has probability at least 2^-%.5f", c.Calls+1-(1<<24), L, scheme, ent, L, bound)
+					}
+				}
+			}
+			ev.NonTrivial(fmt.Sprintf("huge|%d|%s|%d", c.Calls, c.W.Scheme, c.W.Length))
+			ev.Class("huge_list_beyond_2^24")
+			return nil
+		})
+	}
 	ev.Check(t, "c06_char", ev.N(160, 1600), func(t *rapid.T) c06Char {
 		c := c02Gen(t)
 		return c06Char{c.Spec, c.Key}
